@@ -179,6 +179,15 @@ def build_with_gates(ir, r, gates):
             return gates.make(desc[1])
         if desc[0] == 'reprgate':
             return gates.make_repr(desc[1])
+        if desc[0] == 'visit':
+            # a callable that records what it sees in a container handed to it: the container is the call's own
+            def visit(x, acc):
+                if isinstance(acc, dict):
+                    acc[x] = len(acc)
+                    return sorted(acc)
+                acc.append(x)
+                return list(acc)
+            return visit
         return orig(desc)
     pyval.fn_of = fn_of
     pyspec.fn_of = fn_of
@@ -197,6 +206,14 @@ def run_calls(case):
     def thunk(i):
         r, target, spec = calls[i]
         return lambda: r.encode(glom.glom(target, spec))
+    fresh = None
+    if case.get('shared_spec'):
+        # every call through a spec object of its own, built for it and used once
+        fresh = []
+        for c in case['calls']:
+            r0 = pyval.Realiser()
+            t0, s0 = r0.build(c['target']), build_with_gates(c['spec'], r0, gates)
+            fresh.append(outcome(lambda: r0.encode(glom.glom(t0, s0))))
     # alone, one after the other
     alone = [outcome(thunk(i)) for i in range(len(calls))]
     # together, under the schedule
@@ -214,7 +231,17 @@ def run_calls(case):
     for i, (a, b) in enumerate(zip(alone, together)):
         if a != b:
             problems.append('call %d alone %r, interleaved %r' % (i, _short(a), _short(b)))
+    if fresh is not None:
+        for i, (a, b) in enumerate(zip(fresh, alone)):
+            # the two spec objects hold different function objects: addresses in error texts are not compared
+            if _noaddr(a) != _noaddr(b) and 'ReprGate' not in repr(a):
+                problems.append('call %d through the shared spec object %r, through a spec object of its own %r' % (i, _short(b), _short(a)))
     return {'problems': problems, 'n': len(calls), 'kinds': [a[0] for a in alone]}
+
+
+def _noaddr(o):
+    import re
+    return re.sub(r'0x[0-9a-f]+', '0x', repr(o))
 
 
 def _short(o):
@@ -401,6 +428,13 @@ def gen_shared(rng, k):
         # rendered while the other calls render theirs (of the same spec object)
         spec = ['Tuple', [['Fn', ['reprgate', 1]], ['Fn', ['gate', 1]], ['Str', 'zz__missing'], ['Fn', ['reprgate', 2]]]]
     calls = [{'target': {'k': 'dict', 'od': False, 'id': 900, 'items': [['who', 'caller-%d' % i], ['t', t]]}, 'spec': spec} for i in range(k)]
+    if rng.random() < 0.3:
+        # the shared spec binds an EMPTY list / dict literal in its scope and a callable fills it in, with a yield point between
+        # two visits: every call starts from its own empty container
+        acc = rng.choice([['List', []], ['Dict', False, []]])
+        visit = ['Call', ['Fn', ['visit']], [['T', 'T', []], ['T', 'S', [['.', ['Str', 'seen']]]]]]
+        spec = ['Tuple', [['Bind', [['seen', acc]]], ['List', [['Tuple', [['Fn', ['gate', 1]], visit]]]]]]
+        calls = [{'target': {'k': 'list', 'id': 900, 'items': ['c%d-a' % i, 'c%d-b' % i]}, 'spec': spec} for i in range(k)]
     return {'kind': 'calls', 'shared_spec': True, 'calls': calls,
             'schedule': [rng.randint(0, k - 1) for _ in range(rng.randint(0, 3 * k + 2))]}
 
